@@ -72,9 +72,14 @@ class C07:
                     acc.pop('interpolator_window_size', None)
                     if acc.get('quad_npts', 100) < 100:
                         acc['quad_npts'] = 100
-            pairs.append((sk, tk, G.draw_scatterer(
+            scd = G.draw_scatterer(
                 rng, sk, ext, grid={'shape': shape, 'spacing': spc,
-                                    'origin': [0, 0]}), th))
+                                    'origin': [0, 0]})
+            if tk in ('MieLens', 'AberratedMieLens') and \
+                    scd[0] == 'sphere' and rng.random() < 0.2:
+                # far from focus: tens of micrometres of defocus
+                scd[1]['center'][2] = rfloat(rng, 35, 110, 3)
+            pairs.append((sk, tk, scd, th))
         need_x = any(tk in G.NEEDS_X_POL or
                      (tk == 'auto' and sk in ('spheroid', 'cylinder'))
                      for sk, tk, _, _ in pairs)
